@@ -2,6 +2,8 @@
 // forwarded by emplace, initializer lists, nested containers, class element types of the standard library, comparison of containers,
 // free swap).  Its output must be byte-identical under every language level / assertion / optimisation setting.  C++11 only.
 #include <cstdio>
+#include <cstring>
+#include <list>
 #include <initializer_list>
 #include <string>
 #include <utility>
@@ -112,6 +114,46 @@ void nestedOps(const char *name) {
   std::printf("cmp %d %d\n", v == w, v < w);
 }
 
+// Ranges whose value type differs from the element type are converted element by element (never copied as bytes):
+// the object representation of every element is printed, so that a `bool` holding the byte 2 shows.
+template <class T>
+void showBytes(const char *what, const T *first, std::size_t n) {
+  std::printf("%s [", what);
+  for (std::size_t i = 0; i < n; ++i) {
+    unsigned char b[sizeof(T)];
+    std::memcpy(b, static_cast<const void *>(first + i), sizeof(T));
+    std::printf(" ");
+    for (std::size_t k = 0; k < sizeof(T); ++k) std::printf("%02x", static_cast<unsigned>(b[k]));
+  }
+  std::printf(" ] size=%lu\n", static_cast<unsigned long>(n));
+}
+
+template <class V, class Src>
+void convertOps(const char *name) {
+  typedef typename V::value_type T;
+  std::printf("== %s\n", name);
+  const Src raw[] = {static_cast<Src>(0), static_cast<Src>(1), static_cast<Src>(2), static_cast<Src>(64), static_cast<Src>(-1), static_cast<Src>(-128),
+                     static_cast<Src>(127)};
+  const std::size_t n = sizeof(raw) / sizeof(raw[0]);
+  std::list<Src> lst(raw, raw + n);
+  std::vector<Src> vec(raw, raw + n);
+  V a(raw, raw + n);
+  showBytes<T>("ctor(pointers)", a.data(), a.size());
+  V b(lst.begin(), lst.end());
+  showBytes<T>("ctor(list)", b.data(), b.size());
+  V c;
+  c.assign(vec.begin(), vec.end());
+  showBytes<T>("assign(vector it)", c.data(), c.size());
+  V d(2);
+  d.insert(d.begin() + 1, raw + 2, raw + 5);
+  showBytes<T>("insert(pointers)", d.data(), d.size());
+  d.insert(d.end(), lst.begin(), lst.end());
+  showBytes<T>("insert(list)", d.data(), d.size());
+  V e(raw + 1, raw + 3);
+  e.assign(raw, raw + n);
+  showBytes<T>("assign(pointers)", e.data(), e.size());
+}
+
 void flatSetOps() {
   std::printf("== FlatSet\n");
   amc::FlatSet<PB> s;
@@ -153,6 +195,14 @@ int main() {
   nestedOps<amc::vector<amc::vector<int> > >("vector<amc::vector<int>>");
   nestedOps<amc::FixedCapacityVector<amc::SmallVector<int, 2>, 6> >("FixedCapacityVector<SmallVector<int,2>,6>");
   nestedOps<std::vector<std::vector<int> > >("std::vector<std::vector<int>> (reference)");
+  convertOps<amc::vector<bool>, char>("vector<bool> from char");
+  convertOps<amc::SmallVector<bool, 3>, unsigned char>("SmallVector<bool,3> from unsigned char");
+  convertOps<amc::FixedCapacityVector<bool, 24>, signed char>("FixedCapacityVector<bool,24> from signed char");
+  convertOps<amc::vector<unsigned char>, signed char>("vector<unsigned char> from signed char");
+  convertOps<amc::vector<int>, unsigned>("vector<int> from unsigned");
+  convertOps<amc::SmallVector<float, 2>, int>("SmallVector<float,2> from int");
+  convertOps<amc::vector<long>, int>("vector<long> from int");
+  convertOps<amc::vector<unsigned short>, short>("vector<unsigned short> from short");
   flatSetOps();
   std::printf("END\n");
   return 0;
